@@ -23,7 +23,9 @@ type c06Cfg struct {
 	EPN     int      `json:"epn"`
 	Cache   int      `json:"cache"`
 	NotNull bool     `json:"notnull,omitempty"` // declare b NOT NULL
-	Mode    string   `json:"mode"`              // c06 | c16
+	// SameTime runs every statement with one constant explicit write_time ("non-decreasing" includes equal).
+	SameTime bool   `json:"sametime,omitempty"`
+	Mode     string `json:"mode"` // c06 | c16
 }
 
 type c06Case struct {
@@ -37,7 +39,7 @@ type c06Mut struct {
 }
 
 func (c c06Cfg) id() string {
-	return fmt.Sprintf("%s|n%d|u%v|e%d|c%d|nn%v|%s", c.Mode, len(c.Keys), c.Updates, c.EPN, c.Cache, c.NotNull, c.Keys[0])
+	return fmt.Sprintf("%s|n%d|u%v|e%d|c%d|nn%v|st%v|%s", c.Mode, len(c.Keys), c.Updates, c.EPN, c.Cache, c.NotNull, c.SameTime, c.Keys[0])
 }
 
 func c06Muts(cfg c06Cfg) []c06Mut {
@@ -177,6 +179,7 @@ func c06Cfgs(thorough bool, mode string) []c06Cfg {
 		}
 		cfgs = append(cfgs, c06Cfg{Keys: []string{"-1", "2", "2.5", "'a'", "'b'", "x'00'"}, Consts: []string{"-5", "2.2", "'aa'", "x''", "x'01'"}, EPN: 2, Mode: mode})
 		cfgs = append(cfgs, c06Cfg{Keys: intKeys(4), Consts: []string{"0", "5", "2.5", "'x'"}, Updates: true, EPN: 2, NotNull: true, Mode: mode})
+		cfgs = append(cfgs, c06Cfg{Keys: intKeys(4), Consts: []string{"0", "5", "2.5", "'x'"}, Updates: true, EPN: 2, SameTime: true, Mode: mode})
 		return cfgs
 	}
 	for _, e := range []ec{{2, 0}, {2, 100}, {3, 0}, {4, 0}, {4, 100}, {4096, 0}, {4096, 100}} {
@@ -184,6 +187,8 @@ func c06Cfgs(thorough bool, mode string) []c06Cfg {
 	}
 	cfgs = append(cfgs, c06Cfg{Keys: intKeys(5), Consts: []string{"0", "6", "2.5", "'x'"}, Updates: true, EPN: 2, NotNull: true, Mode: mode})
 	cfgs = append(cfgs, c06Cfg{Keys: intKeys(5), Consts: []string{"0", "6", "2.5", "'x'"}, Updates: true, EPN: 4096, Cache: 100, NotNull: true, Mode: mode})
+	cfgs = append(cfgs, c06Cfg{Keys: intKeys(5), Consts: []string{"0", "6", "2.5", "'x'"}, Updates: true, EPN: 2, SameTime: true, Mode: mode})
+	cfgs = append(cfgs, c06Cfg{Keys: intKeys(5), Consts: []string{"0", "6", "2.5", "'x'"}, Updates: true, EPN: 4096, SameTime: true, Mode: mode})
 	for _, e := range []ec{{2, 0}, {3, 0}} {
 		cfgs = append(cfgs, c06Cfg{Keys: []string{"0", "1", "2", "3", "4", "5", "6", "7", "8"}, Consts: []string{"-1", "9", "3.5", "'x'"}, EPN: e.epn, Cache: e.cache, Mode: mode})
 	}
@@ -247,6 +252,9 @@ func c06Open(cfg c06Cfg) (*c06World, error) {
 	}
 	if err := c.Exec("create table nat(" + ncols + ") without rowid"); err != nil {
 		panic(err)
+	}
+	if cfg.SameTime {
+		must(c.SetWriteTime(engine.T(1500)))
 	}
 	return &c06World{w: w, c: c, cfg: cfg, t: 1000, cols: cols}, nil
 }
@@ -348,6 +356,9 @@ func c06Worker(raw json.RawMessage) *engine.Result {
 		}
 		if cs.Cfg.NotNull {
 			feat += "|notnull"
+		}
+		if cs.Cfg.SameTime {
+			feat += "|equal-write-times"
 		}
 		for i := range res.Viol {
 			res.Viol[i].Class += feat
